@@ -99,7 +99,7 @@ type vInput struct {
 	Params     vParams      `json:"params"`
 	Behaviours []vBehaviour `json:"behaviours"`
 	Par        int          `json:"par"`
-	LongRuns   int          `json:"long_runs"` // randomized long honest/faulty runs beyond the model bounds
+	RestartEvery int        `json:"restart_every"` // the extra "a new session starts and succeeds" run after every n-th behaviour
 }
 
 // ---------------------------------------------------------------- local chain (stands for the chain service)
@@ -567,7 +567,7 @@ func (w *vWorld) common() int {
 
 // ---------------------------------------------------------------- delivering a message to the actor
 
-const vBlockLimit = 30 * time.Second
+const vBlockLimit = 12 * time.Second
 
 // deliver calls Syncer.Receive; false = the actor did not return (blocked)
 func (w *vWorld) deliver(m interface{}) bool {
